@@ -96,8 +96,8 @@ def run(pid):
         module, inv_names, want = ("MCStore", "Refines / PredictedPositionsExact / FreedOnce", ("idxgc", "prigc")) if pid == "C04" else \
                                   ("MCStoreCrash", "Refines / ReopenPathsAgree / NoLiveFreed / PureAgrees", ("reopen",))
         for pl, il, mc in ([(33, 30, 6), (70, 70, 6)] if thorough else [(33, 30, 5)]):
-            consts = {"Vals": "{0, 5}", "PriLimit": pl, "IdxLimit": il, "MaxCalls": mc, "WithGC": "TRUE", "LowUses": "{0, 101}", "Deadlines": ("{0, 1, 2}" if thorough else "{0, 1}") if pid == "C04" else "{0}",
-                      "IDeadlines": ("{0, 1, 2, 3}" if thorough else "{0, 2}") if pid == "C04" else "{0}"}   # (the long walks below use limits 1..5 for both)
+            consts = {"Vals": "{0, 5}", "PriLimit": pl, "IdxLimit": il, "MaxCalls": mc, "WithGC": "TRUE", "LowUses": "{0, 101}", "Deadlines": "{0, 1, 2}" if pid == "C04" and thorough else "{0}",
+                      "IDeadlines": "{0, 1, 2, 3}" if pid == "C04" and thorough else "{0}"}   # (quick tier: time limits 1..5 for both collectors come with the long walks below)
             if pid == "C02":
                 consts.update({"CommitOrder": '"pif"', "Faults": '{"reopen"}'})
             r0 = vlib.tlc_must(module, module + "_mc.cfg", consts=consts, timeout=3000)
@@ -149,6 +149,7 @@ def run(pid):
             checked_total += walked
             total += walked
             rep.cov["mechanism_model_long_walks_replayed"] = walked
+            vlib.log("%s: %d long walks replayed through the mechanism model" % (pid, walked))
         rep.cov["mechanism_model_histories_replayed"] = checked_total
         rep.cov["mechanism_model_histories_whose_files_differ_from_the_model"] = drift_total
     # 1. exhaustive short histories
@@ -166,6 +167,7 @@ def run(pid):
     scens = [{"cfg": c, "ops": fix_ops(c, h)} for c in cfgs for h in hs]
     vlib.log("%s: %d exhaustive histories of length %d x %d configurations" % (pid, len(hs), blen, len(cfgs)))
     by, n = seqeng.run_and_judge(scens, "bfs")
+    vlib.log("%s: exhaustive histories judged" % pid)
     mine, other = attribute(spec, scens, by)
     report_bad(rep, scens, mine)
     unattributed += len(other)
@@ -185,6 +187,7 @@ def run(pid):
         c["probe"] = rng.choice(["all", "end"])
     sc2 = [{"cfg": cfgl[i % len(cfgl)], "ops": fix_ops(cfgl[i % len(cfgl)], h)} for i, h in enumerate(hs2)]
     by2, n2 = seqeng.run_and_judge(sc2, "sim")
+    vlib.log("%s: %d walks judged" % (pid, len(sc2)))
     mine2, other2 = attribute(spec, sc2, by2)
     report_bad(rep, sc2, mine2)
     unattributed += len(other2)
